@@ -141,7 +141,9 @@ func (w *world) ctxFor(b *nom.AccountBlock) vm_context.AccountVmContext {
 
 // send builds, signs and applies a user send; returns the accepted block or nil
 func (w *world) send(kp *wallet.KeyPair, to types.Address, zts types.ZenonTokenStandard, amount *big.Int, data []byte, tag string) *nom.AccountBlock {
-	if w.locks && to == types.PillarContract && w.wouldRevokeLastPillar(kp, data) {
+	// in every suite: with no active pillar left the election of the real node spins for ever (C05's recorded
+	// no-pillars-no-schedule case), which would only show up here as a suite timeout
+	if to == types.PillarContract && w.wouldRevokeLastPillar(kp, data) {
 		w.out.Count("locks:revoke-of-the-last-active-pillar-not-sent")
 		return nil
 	}
